@@ -857,14 +857,6 @@ impl<K: EnrKey> Enr<K> {
             removed.push(new_enr.content.remove(key.as_ref()));
         }
 
-        // add the new public key
-        let public_key = enr_key.public();
-        let mut pubkey = BytesMut::new();
-        public_key.encode().as_ref().encode(&mut pubkey);
-        new_enr
-            .content
-            .insert(public_key.enr_key(), pubkey.freeze());
-
         let mut inserted = Vec::new();
         for (key, value) in insert_key_values {
             let mut out = BytesMut::new();
@@ -876,6 +868,14 @@ impl<K: EnrKey> Enr<K> {
 
             inserted.push(new_enr.content.insert(key.as_ref().to_vec(), value));
         }
+
+        // add the new public key, last, so that the record always carries the key that signs it
+        let public_key = enr_key.public();
+        let mut pubkey = BytesMut::new();
+        public_key.encode().as_ref().encode(&mut pubkey);
+        new_enr
+            .content
+            .insert(public_key.enr_key(), pubkey.freeze());
 
         // increment the sequence number
         new_enr.seq = new_enr
